@@ -140,5 +140,41 @@ Section Analyses.
           end
       end
     else Some (alpha, flap, s).
+
+  (* scene.py 2729-2960 (pitch_trim_using_orientation): Newton iteration on (elevation angle, pitch control) with finite-difference
+     derivatives; the attitude is rebuilt from the unchanged bank and heading and the current elevation, the Earth-fixed velocity v0, the
+     position p0 and the rates w0 recorded before the loop are handed back at every state update (set_state takes the velocity in
+     body-fixed components: quat_trans q v0).  The control is in degrees and its derivative is taken per degree; F returns [CL; Cm_w; Cm]. *)
+  Definition with_attitude (s : ast) (q : quat T) (v0 w0 p0 : v3 T) : ast :=
+    mk_ast (quat_inv_trans q (quat_trans q v0)) w0 p0 q (s_c s).
+  Fixpoint orient_trim_loop (fuel : nat) (s : ast) (ic : nat) (phi theta psi flap : T) (R : T * T) (CLd Cmd relax tol : T)
+           (v0 w0 p0 : v3 T) : option (T * T * ast) :=
+    if big tol R then
+      match fuel with
+      | 0 => None
+      | Datatypes.S f =>
+          let dth := n1 / nofZ 1000 in
+          let c0 := s_c s in
+          let FMf := F (set_c s (set_nth c0 ic (flap + dth))) in
+          let FMb := F (set_c s (set_nth c0 ic (flap - dth))) in
+          let s0 := set_c s (set_nth c0 ic flap) in
+          let dd := nofZ 2 * dth in
+          let CL_de := (nth 0 FMf n0 - nth 0 FMb n0) / dd in
+          let Cm_de := (nth 2 FMf n0 - nth 2 FMb n0) / dd in
+          let sf := with_attitude s0 (euler_to_quat fcos fsin phi (theta + dth) psi) v0 w0 p0 in
+          let sb := with_attitude sf (euler_to_quat fcos fsin phi (theta - dth) psi) v0 w0 p0 in
+          let CL_dt := (nth 0 (F sf) n0 - nth 0 (F sb) n0) / dd in
+          let Cm_dt := (nth 2 (F sf) n0 - nth 2 (F sb) n0) / dd in
+          let '(d0, d1) := solve2 CL_dt CL_de Cm_dt Cm_de (- fst R) (- snd R) in
+          let theta1 := theta + d0 * relax in
+          let flap1 := flap + d1 * relax in
+          let s1 := set_c (with_attitude sb (euler_to_quat fcos fsin phi theta1 psi) v0 w0 p0) (set_nth (s_c sb) ic flap1) in
+          let R1 := trim_res s1 CLd Cmd in
+          match f with
+          | 0 => None                                   (* i == max_iter: MaxIterationError *)
+          | _ => orient_trim_loop f s1 ic phi theta1 psi flap1 R1 CLd Cmd relax tol v0 w0 p0
+          end
+      end
+    else Some (theta, flap, s).
 End Analyses.
 Arguments ast T : clear implicits.
